@@ -74,7 +74,8 @@ def run_cases(args):
             res["faults"].append({"file": rel, "fkind": kind, **(extra or {}), "verdict": v,
                                   "dir": T.dir_code(Path(rel).parent), "name": Path(rel).name})
             shutil.rmtree(cp)
-        picks = files if a["all_files"] else rng.sample(files, min(len(files), a["nfiles"]))
+        pool = [f for f in files if f[1] == a["pick_kind"] and f[0].count("/") >= 2] if a.get("pick_kind") else files
+        picks = pool if a["all_files"] and not a.get("pick_kind") else rng.sample(pool, min(len(pool), a["nfiles"]))
         for rel, fk in picks:
             data = (root / rel).read_bytes()
             n = len(data)
@@ -255,6 +256,11 @@ def run(ctx):
         hist.append({"kind": "filler", "sub": hist[0]["sub"], "writes": [[hist[0]["writes"][0][0], eps + 1]], "reopen": True})
         cases.append({"root": str(ctx.scratch / f"c05_{i}"), "fmt": ["fb", "npz", "tfrec"][i % 3], "eps": eps, "hashes": hashes, "hist": hist,
                       "seed": rng.randrange(1 << 30), "all_files": ctx.thorough, "nfiles": 4, "every_byte": ctx.thorough and i < 3})
+    # a wide tree: one list with 70 (thorough: 150) child lists — one multi-writer call —, faults planted on some of the child lists
+    nw = ctx.pick(70, 150)
+    cases.append({"root": str(ctx.scratch / "c05_wide"), "fmt": ["fb", "npz"][ctx.seed % 2], "eps": 2, "hashes": ["sha256"],
+                  "hist": [{"kind": "multi", "writers": [[[0, 1]] for _ in range(nw)], "reopen": False}, {"kind": "filler", "sub": ".", "writes": [[0, 3]], "reopen": True}],
+                  "seed": rng.randrange(1 << 30), "all_files": False, "nfiles": 5, "every_byte": False, "pick_kind": "list"})
     results = []
     for i in range(0, len(cases), 4):
         results += child.call("harness.checks.c05", "run_cases", cases[i:i + 4], timeout=2400)
@@ -288,7 +294,7 @@ def run(ctx):
         raise RuntimeError(f"model check verdicts {reps}")
     ctx.cov.update({
         "evaluations": nf + 2 * len(results), "distinct_nontrivial": len(kinds), "traces_validated_against_impl": nf,
-        "rule": "committed datasets (flat and nested shard-list trees after 2-4 sessions, 1/2/3/13 checksum algorithms, fb/npz/tfrec); on copies: bit flips at "
+        "rule": "committed datasets (flat and nested shard-list trees after 2-4 sessions, and one list with 70 / 150 child lists, 1/2/3/13 checksum algorithms, fb/npz/tfrec); on copies: bit flips at "
                 "first/last/random offsets (every byte of files < 2 KiB in thorough), truncation to {0,1,n/2,n-1}, extension, deletion, swap with a sibling, "
                 "roll-back of list files to their previous committed version, description bit flip with expected checksums, and an in-place flip with "
                 "size and mtime preserved after a passing check in the same process; distinct = (fault kind, file kind)",
